@@ -31,8 +31,8 @@
  */
 
 use crate::builders::{
-  BusinessKnowledgeModelEvaluator, DecisionEvaluator, DecisionServiceEvaluator, InputDataContextEvaluator, InputDataEvaluator, ItemDefinitionContextEvaluator,
-  ItemDefinitionEvaluator, ItemDefinitionTypeEvaluator,
+  check_cyclic_dependencies, BusinessKnowledgeModelEvaluator, DecisionEvaluator, DecisionServiceEvaluator, InputDataContextEvaluator, InputDataEvaluator,
+  ItemDefinitionContextEvaluator, ItemDefinitionEvaluator, ItemDefinitionTypeEvaluator,
 };
 use crate::errors::{err_read_lock_failed, err_write_lock_failed};
 use dmntk_common::Result;
@@ -77,6 +77,7 @@ pub struct ModelEvaluator {
 impl ModelEvaluator {
   /// Creates an instance of [ModelEvaluator].
   pub fn new(definitions: &Definitions) -> Result<Arc<Self>> {
+    check_cyclic_dependencies(definitions)?;
     let model_evaluator = Arc::new(ModelEvaluator::default());
     model_evaluator
       .input_data_evaluator
